@@ -1863,7 +1863,11 @@ impl Exec {
                     .get("data")
                     .and_then(|x| x.as_array())
                     .map(|v| v.iter().map(|b| b.as_u64().unwrap_or(0) as u8).collect())
-                    .unwrap_or_else(|| vec![0u8; 8]);
+                    .unwrap_or_else(|| match s(a, "disc") {
+                        // an Anchor-style instruction of that program: the discriminator of the named instruction
+                        Some(n) => solana_program::hash::hash(format!("global:{}", n).as_bytes()).to_bytes()[..8].to_vec(),
+                        None => vec![0u8; 8],
+                    });
                 let mut m = vec![];
                 if let Some(first) = s(a, "first") {
                     m.push(AccountMeta::new_readonly(self.k(first), false));
